@@ -97,6 +97,9 @@ void bufr_free_sequence( BUFR_Sequence *bsq )
       }
 
    free( bsq );
+#ifdef LIBECBUFR_VERIF
+   bufr_verif_live[BUFR_VK_SEQUENCE]--;
+#endif
    }
 
 /**
@@ -125,6 +128,9 @@ BUFR_Sequence *bufr_create_sequence(LinkedList *list)
 
    bsq = (BUFR_Sequence *)malloc( sizeof(BUFR_Sequence) );
    assert( bsq );
+#ifdef LIBECBUFR_VERIF
+   bufr_verif_live[BUFR_VK_SEQUENCE]++;
+#endif
    if (list == NULL)
       list = lst_newlist();
    bsq->list = list;
